@@ -758,8 +758,10 @@ func (f *Format) runC07(ctx *hx.Ctx, budget int) {
 			}
 			if count == 0 {
 				ctx.Failf(-1, f.classify("resync-lost", "", map[string]any{"k": k}), where, "%s: frame %d and its predecessor arrived intact but it was not returned (by the first packet of the following frame)", f.Name, k)
-			} else if total != 1 {
-				ctx.Failf(-1, f.classify("resync-duplicate", "", map[string]any{"k": k}), where, "%s: intact frame %d was returned %d times", f.Name, k, total)
+			} else if same := sameContent(f, frames, k); total > same {
+				// frames are told apart by content: several frames of the history may carry the same bytes (tiny
+				// frames: thorough-tier false alarm of 2026-09-23), each of them may be returned once
+				ctx.Failf(-1, f.classify("resync-duplicate", "", map[string]any{"k": k}), where, "%s: intact frame %d was returned %d times (%d frames of the history have this content)", f.Name, k, total, same)
 			}
 		}
 		ctx.Kind(fmt.Sprintf("%s faults", f.Name))
@@ -830,6 +832,17 @@ func (f *Format) hostileHistory(r *hx.Rand, cfg Cfg, n int) []*rtp.Packet {
 		out = append(out, p)
 	}
 	return out
+}
+
+// sameContent counts the frames of the history whose content equals that of frame k (at least 1)
+func sameContent(f *Format, frames []Frame, k int) int {
+	n := 0
+	for _, x := range frames {
+		if f.eq(x, frames[k]) {
+			n++
+		}
+	}
+	return n
 }
 
 type kept struct {
